@@ -70,7 +70,7 @@ Qed.
 Lemma Fr_start_rec s r c w f : Fr s (start_rec s r c w f) /\ length (timers (start_rec s r c w f)) = length (timers s).
 Proof.
   unfold start_rec. set (x := getr s r).
-  destruct (negb f && rsucc x); [split; [apply Fr_refl | reflexivity]|].
+  destruct (negb f && rsucc x || rnil x); [split; [apply Fr_refl | reflexivity]|].
   destruct (negb f && is_some (rctx x) && negb (rexited x) && ctx_live s (rctx x)); [split; [apply Fr_refl | reflexivity]|].
   set (s1 := stop_timer s (rretry x)). set (s2 := cancel_inst s1 (rcancel x)). cbn zeta.
   destruct (stop_timer_frame s (rretry x)) as [_ [T2 [_ [_ [_ [_ [_ [_ [_ [_ T11]]]]]]]]]]. fold s1 in T2, T11.
@@ -880,6 +880,7 @@ Proof.
   - apply (R_Fr0 s); [apply Fr0_advance | exact HR].
   - now apply timer_cb_refines.
   - apply (R_Fr0 s); [apply Fr0_cancel_root | exact HR].
+  - apply (R_Fr0 s); [split; [apply Fr_ext; reflexivity | reflexivity] | exact HR].
 Qed.
 
 (* the abstract run that accompanies a concrete history *)
